@@ -684,6 +684,15 @@ def native_call(interp, f, args, kwargs):
             return f(*args, **kwargs)
         except (ValueError, TypeError, IndexError, KeyError):
             return "<formatted>"
+    from .spval import contains_spval, sp_native
+    if contains_spval(args) or contains_spval(kwargs):
+        r = sp_native(f, args, kwargs)
+        if r is not NotImplemented:
+            return r
+        try:
+            return f(*args, **kwargs)       # numpy's object protocol calls the SpVal methods
+        except Exception as e:
+            raise Unsupported(f"analytic mode: {getattr(f, '__name__', f)}: {type(e).__name__}: {e}")
     sym = contains_sym(args) or contains_sym(kwargs)
     m = NP_MODELS.get(id(f))
     if m is not None and (sym or getattr(m, "always", False)):
